@@ -1,11 +1,11 @@
 #!/bin/bash
 # usage: tryseed.sh <patch.diff> <prop> [prop...]  -- applies the patch to /repo, runs the quick checks, reverts.
 P=$1; shift
-cd /repo || exit 2
+R=${TRYREPO:-/repo}; cd $R || exit 2
 if [ -n "$(git status --porcelain --untracked-files=no)" ]; then echo "tryseed: /repo is dirty"; exit 2; fi
 git apply "$P" || { echo "tryseed: patch does not apply"; exit 2; }
-trap 'git -C /repo checkout -- . ' EXIT
+trap 'git -C $R checkout -- . ' EXIT
 for id in "$@"; do
-  out=$(VERIF_NOEVIDENCE=1 /verif/bin/lfscheck -repo /repo -verif /verif -prop $id -tier quick -no-evidence 2>&1); rc=$?
+  out=$(VERIF_NOEVIDENCE=1 /verif/bin/lfscheck -repo $R -verif /verif -prop $id -tier quick -no-evidence 2>&1); rc=$?
   echo "== $id rc=$rc"; echo "$out" | grep -E "VIOLATION|instance:|why:|lfscheck:" | head -12
 done
